@@ -233,7 +233,7 @@ type running struct {
 
 // endpoint spec: <identity>:<clientmode>:<behaviour>
 // identity: good1 good2 otherca selfsigned expired notyet wrongname tls10 tls11 tls12 tls13 down
-// clientmode: none request requesthint require requireother
+// clientmode: none request requesthint require requireother ifgiven ifgivenother
 func startServer(ip string, port int, spec string) (*running, error) {
 	w := getWorld()
 	f := strings.SplitN(spec, ":", 3)
@@ -300,6 +300,12 @@ func startServer(ip string, port int, spec string) (*running, error) {
 	case "requireother":
 		pool.AddCert(w.clientCA2.cert)
 		cfg.ClientAuth, cfg.ClientCAs = tls.RequireAndVerifyClientCert, pool
+	case "ifgivenother": // does not insist on a certificate but verifies the one it is given, against another issuer
+		pool.AddCert(w.clientCA2.cert)
+		cfg.ClientAuth, cfg.ClientCAs = tls.VerifyClientCertIfGiven, pool
+	case "ifgiven":
+		pool.AddCert(w.clientCA.cert)
+		cfg.ClientAuth, cfg.ClientCAs = tls.VerifyClientCertIfGiven, pool
 	}
 	l, err := net.Listen("tcp", fmt.Sprintf("%s:%d", ip, port))
 	if err != nil {
@@ -406,7 +412,7 @@ func runSign(args []string) []string {
 
 func genSign(g *hx.Gen, out *hx.Out) {
 	idents := []string{"good1", "good1", "good1", "good2", "otherca", "selfsigned", "expired", "notyet", "wrongname", "tls11", "down", "tls10", "tls12", "tls13"}
-	cmodes := []string{"none", "request", "requesthint", "require", "require", "requireother"}
+	cmodes := []string{"none", "request", "requesthint", "require", "require", "requireother", "ifgiven", "ifgivenother"}
 	behavs := []string{"ok.1.c", "ok.1.c", "ok.2.c", "ok.3.sp", "ok.1.none", "ok.3.c.junk", "ok.2.none.junk", "empty", "garbage", "err.2", "err.14", "err.4", "err.7", "err.16", "err.13", "slow"}
 	var sets [][]string
 	sets = append(sets, []string{"-", "1", "1"})
@@ -416,6 +422,11 @@ func genSign(g *hx.Gen, out *hx.Out) {
 	// identity can be wrong
 	for code := 1; code <= 16; code++ {
 		sets = append(sets, []string{fmt.Sprintf("good1:none:err.%d|good2:request:ok.1.c", code), "2", "1"})
+	}
+	// every way a server can ask for the client certificate, alone and in front of one that signs
+	for _, cm := range []string{"none", "request", "requesthint", "require", "requireother", "ifgiven", "ifgivenother"} {
+		sets = append(sets, []string{"good1:" + cm + ":ok.1.c", "2", "1"})
+		sets = append(sets, []string{"good1:" + cm + ":ok.1.c|good2:require:ok.2.c", "2", "1"})
 	}
 	for _, b := range []string{"empty", "garbage", "slow"} {
 		sets = append(sets, []string{"good1:require:" + b + "|good1:none:ok.2.c", "2", "1"})
